@@ -26,8 +26,11 @@ pub enum Call {
     Readdir,
     Stat,
     Mkdir,
+    Rename,
+    Unlink,
+    Sync,
 }
-pub const NCALLS: usize = 8;
+pub const NCALLS: usize = 11;
 impl Call {
     pub fn idx(self) -> usize {
         self as usize
@@ -42,6 +45,9 @@ impl Call {
             Call::Readdir => "readdir",
             Call::Stat => "stat",
             Call::Mkdir => "mkdir",
+            Call::Rename => "rename",
+            Call::Unlink => "unlink",
+            Call::Sync => "fsync",
         }
     }
 }
@@ -130,6 +136,11 @@ pub struct SimCtx {
     pub threads_created: u32,
     /// the nth thread creation of this process is refused with EAGAIN
     pub thread_fail: Option<u32>,
+    /// simulated time this process has spent asleep (nanoseconds): `nanosleep` returns at once
+    /// and advances it, `clock_gettime` adds it to the real clock, so a retry loop with a
+    /// deadline ends at once and one without a deadline is given up after `SLEEP_LIMIT_NS`
+    pub slept_ns: u64,
+    pub sleeps: u32,
     in_shim: bool,
 }
 
@@ -145,6 +156,8 @@ impl SimCtx {
             dead: false,
             seq: 0,
             counts: [0; NCALLS],
+            slept_ns: 0,
+            sleeps: 0,
             fds: Vec::new(),
             dirs: Vec::new(),
             abandoned: Arc::new(std::sync::atomic::AtomicBool::new(false)),
@@ -994,4 +1007,195 @@ pub unsafe extern "C" fn mkdir(path: *const c_char, mode: libc::mode_t) -> c_int
             r
         }
     }
+}
+
+
+// ------------------------------------------------------------------------------------------
+// rename / unlink / fsync: gated, counted (so they are crash points and fault positions)
+// ------------------------------------------------------------------------------------------
+pub static SEEN_RENAME: AtomicU64 = AtomicU64::new(0);
+pub static SEEN_SLEEP: AtomicU64 = AtomicU64::new(0);
+
+#[unsafe(no_mangle)]
+pub unsafe extern "C" fn rename(old: *const c_char, new: *const c_char) -> c_int {
+    let raw = || unsafe { libc::syscall(libc::SYS_renameat, libc::AT_FDCWD, old, libc::AT_FDCWD, new) as c_int };
+    let Some(c) = ctx() else { return raw() };
+    let ob = unsafe { cstr_bytes(old) };
+    let nb = unsafe { cstr_bytes(new) };
+    if !in_sandbox(c, ob) || !in_sandbox(c, nb) {
+        return raw();
+    }
+    SEEN_RENAME.fetch_add(1, Ordering::Relaxed);
+    let np = format!("{} -> {}", norm(c, ob), norm(c, nb));
+    match pre(c, Call::Rename) {
+        Pre::Dead => {
+            set_errno(libc::EIO);
+            -1
+        }
+        Pre::Go(Some(Action::Errno(e))) => {
+            log(c, Call::Rename, np, 0, -(e as i64), Some(format!("rename:{}", errname(e))));
+            set_errno(e);
+            -1
+        }
+        Pre::Go(_) => {
+            let r = raw();
+            let res = if r < 0 { -(get_errno() as i64) } else { 0 };
+            log(c, Call::Rename, np, 0, res, None);
+            r
+        }
+    }
+}
+
+#[unsafe(no_mangle)]
+pub unsafe extern "C" fn unlink(path: *const c_char) -> c_int {
+    let raw = || unsafe { libc::syscall(libc::SYS_unlinkat, libc::AT_FDCWD, path, 0) as c_int };
+    let Some(c) = ctx() else { return raw() };
+    let b = unsafe { cstr_bytes(path) };
+    if !in_sandbox(c, b) {
+        return raw();
+    }
+    let np = norm(c, b);
+    match pre(c, Call::Unlink) {
+        Pre::Dead => {
+            set_errno(libc::EIO);
+            -1
+        }
+        Pre::Go(Some(Action::Errno(e))) => {
+            log(c, Call::Unlink, np, 0, -(e as i64), Some(format!("unlink:{}", errname(e))));
+            set_errno(e);
+            -1
+        }
+        Pre::Go(_) => {
+            let r = raw();
+            let res = if r < 0 { -(get_errno() as i64) } else { 0 };
+            log(c, Call::Unlink, np, 0, res, None);
+            r
+        }
+    }
+}
+
+unsafe fn sync_common(fd: c_int, nr: libc::c_long) -> c_int {
+    let raw = || unsafe { libc::syscall(nr, fd) as c_int };
+    let Some(c) = ctx() else { return raw() };
+    let Some(name) = c.fds.iter().find(|f| f.0 == fd).map(|f| f.1.clone()) else { return raw() };
+    match pre(c, Call::Sync) {
+        Pre::Dead => {
+            set_errno(libc::EIO);
+            -1
+        }
+        Pre::Go(Some(Action::Errno(e))) => {
+            log(c, Call::Sync, name, 0, -(e as i64), Some(format!("fsync:{}", errname(e))));
+            set_errno(e);
+            -1
+        }
+        Pre::Go(_) => {
+            let r = raw();
+            log(c, Call::Sync, name, 0, r as i64, None);
+            r
+        }
+    }
+}
+
+#[unsafe(no_mangle)]
+pub unsafe extern "C" fn fsync(fd: c_int) -> c_int {
+    unsafe { sync_common(fd, libc::SYS_fsync) }
+}
+
+#[unsafe(no_mangle)]
+pub unsafe extern "C" fn fdatasync(fd: c_int) -> c_int {
+    unsafe { sync_common(fd, libc::SYS_fdatasync) }
+}
+
+// ------------------------------------------------------------------------------------------
+// simulated time of a simulated process: sleeping costs nothing and is bounded
+// ------------------------------------------------------------------------------------------
+/// A simulated process that has slept an hour of simulated time is waiting for something that
+/// will not happen (operations take milliseconds): it is reported as hung at once.
+pub const SLEEP_LIMIT_NS: u64 = 3_600_000_000_000;
+
+fn sim_sleep(c: &mut SimCtx, ns: u64) {
+    SEEN_SLEEP.fetch_add(1, Ordering::Relaxed);
+    c.slept_ns = c.slept_ns.saturating_add(ns.max(1));
+    c.sleeps = c.sleeps.saturating_add(1);
+    // a sleeping process lets the others run
+    if let Some(g) = c.gate.clone() {
+        c.in_shim = true;
+        g.park(c.pid);
+        c.in_shim = false;
+    }
+    if c.abandoned.load(Ordering::Relaxed) || c.slept_ns >= SLEEP_LIMIT_NS || c.sleeps >= 50_000_000 {
+        c.runaway.store(true, Ordering::Relaxed);
+        loop {
+            std::thread::park();
+        }
+    }
+}
+
+#[unsafe(no_mangle)]
+pub unsafe extern "C" fn nanosleep(req: *const libc::timespec, rem: *mut libc::timespec) -> c_int {
+    let Some(c) = ctx() else {
+        return unsafe { libc::syscall(libc::SYS_nanosleep, req, rem) as c_int };
+    };
+    if req.is_null() {
+        set_errno(libc::EFAULT);
+        return -1;
+    }
+    let t = unsafe { &*req };
+    sim_sleep(c, (t.tv_sec.max(0) as u64).saturating_mul(1_000_000_000).saturating_add(t.tv_nsec.max(0) as u64));
+    if !rem.is_null() {
+        unsafe {
+            (*rem).tv_sec = 0;
+            (*rem).tv_nsec = 0;
+        }
+    }
+    0
+}
+
+#[unsafe(no_mangle)]
+pub unsafe extern "C" fn clock_nanosleep(clk: libc::clockid_t, flags: c_int, req: *const libc::timespec, rem: *mut libc::timespec) -> c_int {
+    let Some(c) = ctx() else {
+        // returns the error number, not -1
+        let r = unsafe { libc::syscall(libc::SYS_clock_nanosleep, clk, flags, req, rem) };
+        return if r < 0 { get_errno() } else { 0 };
+    };
+    if req.is_null() {
+        return libc::EFAULT;
+    }
+    let t = unsafe { &*req };
+    let mut ns = (t.tv_sec.max(0) as u64).saturating_mul(1_000_000_000).saturating_add(t.tv_nsec.max(0) as u64);
+    if flags & libc::TIMER_ABSTIME != 0 {
+        // absolute deadline on the process's (simulated) clock
+        let mut now: libc::timespec = unsafe { std::mem::zeroed() };
+        unsafe { libc::syscall(libc::SYS_clock_gettime, clk, &mut now as *mut libc::timespec) };
+        let now_ns = (now.tv_sec.max(0) as u64).saturating_mul(1_000_000_000).saturating_add(now.tv_nsec.max(0) as u64).saturating_add(c.slept_ns);
+        ns = ns.saturating_sub(now_ns);
+    }
+    sim_sleep(c, ns);
+    if !rem.is_null() {
+        unsafe {
+            (*rem).tv_sec = 0;
+            (*rem).tv_nsec = 0;
+        }
+    }
+    0
+}
+
+#[unsafe(no_mangle)]
+pub unsafe extern "C" fn clock_gettime(clk: libc::clockid_t, ts: *mut libc::timespec) -> c_int {
+    let r = unsafe { libc::syscall(libc::SYS_clock_gettime, clk, ts) as c_int };
+    if r != 0 || ts.is_null() {
+        return r;
+    }
+    if clk != libc::CLOCK_MONOTONIC && clk != libc::CLOCK_REALTIME && clk != libc::CLOCK_BOOTTIME && clk != libc::CLOCK_MONOTONIC_RAW {
+        return r;
+    }
+    if let Some(c) = ctx() {
+        if c.slept_ns > 0 {
+            let t = unsafe { &mut *ts };
+            let total = (t.tv_nsec as u64).saturating_add(c.slept_ns % 1_000_000_000);
+            t.tv_sec = t.tv_sec.saturating_add((c.slept_ns / 1_000_000_000) as i64).saturating_add((total / 1_000_000_000) as i64);
+            t.tv_nsec = (total % 1_000_000_000) as _;
+        }
+    }
+    r
 }
